@@ -519,32 +519,29 @@ def flatten(a, order="C"):
     if a.ndim == 1:
         return Arr(a.axes, a.snapshot_fn(), a.kind)
     f = a.snapshot_fn()
-    if order == "C":
-        fac = tuple(x for ax in a.axes for x in ax)
+    if order not in ("C", "F"):
+        raise Unsupported(f"flatten order {order}")
+    seq = list(a.axes) if order == "C" else list(reversed(a.axes))
+    keep = [[not (is_pyint(x) and x == 1) for x in ax] for ax in seq]
+    fac = tuple(x for ax, kp in zip(seq, keep) for x, k_ in zip(ax, kp) if k_)
+    if not fac:
+        fac = (1,)
 
-        def fn(idx):
-            t = idx[0]
-            o = []
-            p = 0
-            for ax in a.axes:
-                o.append(tuple(t[p:p + len(ax)]))
-                p += len(ax)
-            return f(tuple(o))
-        return Arr((fac,), fn, a.kind)
-    if order == "F":
-        rev = list(reversed(a.axes))
-        fac = tuple(x for ax in rev for x in ax)
-
-        def fn(idx):
-            t = idx[0]
-            o = []
-            p = 0
-            for ax in rev:
-                o.append(tuple(t[p:p + len(ax)]))
-                p += len(ax)
-            return f(tuple(reversed(o)))
-        return Arr((fac,), fn, a.kind)
-    raise Unsupported(f"flatten order {order}")
+    def fn(idx):
+        t = list(idx[0])
+        o = []
+        p = 0
+        for ax, kp in zip(seq, keep):
+            sub = []
+            for k_ in kp:
+                if k_:
+                    sub.append(t[p] if p < len(t) else 0)
+                    p += 1
+                else:
+                    sub.append(0)
+            o.append(tuple(sub))
+        return f(tuple(o if order == "C" else reversed(o)))
+    return Arr((fac,), fn, a.kind)
 
 
 def ravel(a, order="C"):
@@ -1358,8 +1355,10 @@ def _bound_vars(n, tag):
     return tuple(z3.Int(f"{tag}!{j}") for j in range(n))
 
 
-def _argext(a, better, skip_nan, name):
-    """first index k such that no element is strictly `better` than a[k]."""
+def _argext(a, better, skip_nan, name, total=False):
+    """first index k such that no element is strictly `better` than a[k].
+    skip_nan: NaN entries are ignored and an all-NaN input raises ValueError (total=True: returns
+    (all_nan, k) instead of raising)."""
     a = _vec(a)
     c = cur()
     ax = a.axes[0]
@@ -1382,40 +1381,41 @@ def _argext(a, better, skip_nan, name):
     finally:
         c.numpy_mode -= 1
     key = ("argext", name, zi(n).sexpr(), z3.simplify(probe.v).sexpr(), zb(probe.nan).sexpr())
-    if key in c.memo:
-        kind_, val = c.memo[key]
-        if kind_ == "raise":
-            raise PyRaise("ValueError", "All-NaN slice encountered")
-        return val
-    if skip_nan:
-        # all-NaN -> ValueError
-        allnan = c.fresh_bool("allnan")
-        w = c.fresh_int("w")
-        c.fact(z3.Implies(z3.Not(allnan), z3.And(w >= 0, w < zi(n), zb(Not_(at(w).nan)))))
-        add_qfact(n, lambda m: Implies_(allnan, at(m).nan), "allnan")
-        ground(w)
-        if c.branch(allnan):
-            c.memo[key] = ("raise", None)
-            raise PyRaise("ValueError", "All-NaN slice encountered")
-    k = c.fresh_int(name)
-    c.fact(z3.And(k >= 0, k < zi(n)))
-    ak = at(k)
-    if skip_nan:
-        c.fact(zb(Not_(ak.nan)))
+    if key not in c.memo:
+        k = c.fresh_int(name)
+        c.fact(z3.And(k >= 0, k < zi(n)))
+        ak = at(k)
+        if skip_nan:
+            allnan = c.fresh_bool("allnan")
+            c.fact(z3.Implies(z3.Not(allnan), zb(Not_(ak.nan))))
+            add_qfact(n, lambda m: Implies_(allnan, at(m).nan), "allnan")
 
-        def body(m):
-            am = at(m)
-            return Implies_(Not_(am.nan), And_(Not_(better(am, ak)), Implies_(am.v == ak.v, zi(k) <= zi(m))))
-    else:
-        # NumPy: a NaN wins argmin/argmax; the fact below only speaks about finite data
-        def body(m):
-            am = at(m)
-            return Implies_(And_(Not_(am.nan), Not_(ak.nan)),
-                            And_(Not_(better(am, ak)), Implies_(am.v == ak.v, zi(k) <= zi(m))))
-    add_qfact(n, body, name)
-    ground(k)
-    c.memo[key] = ("val", k)
+            def body(m):
+                am = at(m)
+                return Implies_(And_(Not_(allnan), Not_(am.nan)),
+                                And_(Not_(better(am, ak)), Implies_(am.v == ak.v, zi(k) <= zi(m))))
+        else:
+            allnan = False
+
+            # NumPy: a NaN wins argmin/argmax; the fact below only speaks about finite data
+            def body(m):
+                am = at(m)
+                return Implies_(And_(Not_(am.nan), Not_(ak.nan)),
+                                And_(Not_(better(am, ak)), Implies_(am.v == ak.v, zi(k) <= zi(m))))
+        add_qfact(n, body, name)
+        ground(k)
+        c.memo[key] = (allnan, k)
+    allnan, k = c.memo[key]
+    if total:
+        return allnan, k
+    if skip_nan and c.branch(allnan):
+        raise PyRaise("ValueError", "All-NaN slice encountered")
     return k
+
+
+def nanargmin_total(a):
+    """specification helper: (all_nan, k) without raising"""
+    return _argext(a, lambda x, y: x.v < y.v, True, "nanargmin", total=True)
 
 
 def argmin(a, axis=None):
